@@ -82,6 +82,17 @@ def check_mapfns(prog, rep):
                 rep.ok("R1-formulas", c.qualname + "#limits", "mapfn(0) = 0 and mapfn(+inf) = 1/2")
             else:
                 rep.unrec("R1-formulas", c.qualname + "#limits", "boundary values not foldable (%s); symbolic limits %s, %s" % (ex, z.show()[:40], inf.show()[:40]))
+        # the inverse at the same two points: invmapfn(0) = 0 and invmapfn(1/2) = +inf (the one-half probabilities at chromosome starts map back to "unlinked")
+        try:
+            z = ieee.fold(prog, fi, body_nodoc(fi.node), {pi: 0.0})
+            at_half = ieee.fold(prog, fi, body_nodoc(fi.node), {pi: 0.5})
+            if z == 0.0 and at_half == ieee.INF:
+                rep.ok("R1-formulas", c.qualname + "#inverse-limits", "invmapfn(0) = 0 and invmapfn(1/2) = +inf (IEEE evaluation of the body at the two points)")
+            else:
+                rep.violate("R1-formulas", c.qualname, "under IEEE arithmetic invmapfn(0) = %r and invmapfn(1/2) = %r (must be exactly 0 and +inf: the one-half probability at a "
+                            "chromosome start must map back to an infinite distance, not to a finite same-chromosome one)" % (z, at_half), where(fi), "0.0, inf", "%r, %r" % (z, at_half))
+        except ieee.FoldUnknown as ex:
+            rep.unrec("R1-formulas", c.qualname + "#inverse-limits", "boundary values of invmapfn not foldable (%s)" % ex)
         # rprob = mapfn o gdist
         for suffix in ("1g", "2g", "1p", "2p"):
             f = prog.lookup_method(c, "rprob" + suffix)
@@ -525,7 +536,17 @@ def check_gdist_p(prog, rep, c):
             rep.unrec("R2-sequential", f.qualname, "not (interp_genpos, then %s)" % tgt)
             continue
         good = True
-        ia = [dump(a) for a in interp[0].args] + [dump(v) for v in kwargs_of(interp[0])[0].values()]
+        ldefs = {}
+        for n in walk_no_nested(f.node):
+            if isinstance(n, ast.Assign) and len(n.targets) == 1 and isinstance(n.targets[0], ast.Name):
+                ldefs.setdefault(n.targets[0].id, []).append(n.value)
+
+        def through(a):
+            # a local bound once to a window of an argument reads as that window
+            if isinstance(a, ast.Name) and a.id not in (chrp, phyp) and len(ldefs.get(a.id, [])) == 1 and isinstance(ldefs[a.id][0], ast.Subscript):
+                return dump(ldefs[a.id][0])
+            return dump(a)
+        ia = [through(a) for a in interp[0].args] + [through(v) for v in kwargs_of(interp[0])[0].values()]
         rebound = {n.targets[0].id for n in walk_no_nested(f.node) if isinstance(n, ast.Assign) and isinstance(n.targets[0], ast.Name) and n.targets[0].id in (chrp, phyp)}
         ca = [dump(a) for a in calls[0].args]
         forwards_window = ca[2:] == win or all(w in ca for w in win)
